@@ -54,6 +54,13 @@ func c13Laws() []*c13Law {
 		{name: "tostring|tonumber == .", src: `[((tostring | tonumber) == .), true]`, domain: finite},
 		{name: "tojson|fromjson == .", src: `[((tojson | fromjson) == .), true]`, domain: func(v any) bool { return !univ.HasNaN(v) && !hasInf(v) && validDeep(v) }},
 		{name: "fromstream(tostream) == .", src: `[(fromstream(tostream) == .), true]`, domain: func(v any) bool { return !univ.HasNaN(v) }},
+		// forked states: the value a setpath was applied to is used again (a second setpath on the same array, the
+		// array a prefix slice was taken from, a replay whose intermediate state is also written to on the side); the
+		// arrays are collected or decoded ones, which have spare capacity behind their length
+		{name: "setpath past the end, forked", src: `[.[]?] as $a | ($a | length) as $n | [[($a | setpath([$n]; "X")) as $r1 | ($a | setpath([$n + 1]; "Z") | setpath([$n]; "Y")) as $r2 | ($r1 | getpath([$n])), ($r2 | getpath([$n])), $r1[:$n], $a], ["X", "Y", [.[]?], [.[]?]]]`, domain: isArr},
+		{name: "setpath past the end of a prefix slice", src: `. as $v | [.[]?] as $a | [[range(0; ($a | length) + 1) as $k | ($a[:$k] | setpath([$k]; "X") | getpath([$k])), $a], [range(0; ($a | length) + 1) as $k | "X", $v]]`, domain: isArr},
+		{name: "setpath past the end of a decoded array, forked", src: `(tojson | fromjson) as $a | ($a | length) as $n | [[($a | setpath([$n]; "X")) as $r1 | ($a | setpath([$n]; "Y")) as $r2 | ($r1 | getpath([$n])), ($r2 | getpath([$n])), $a], ["X", "Y", (tojson | fromjson)]]`, domain: func(v any) bool { return isArr(v) && !univ.HasNaN(v) && !hasInf(v) && validDeep(v) }},
+		{name: "replay tostream with setpath, every state forked", src: `[(reduce (tostream | select(length == 2)) as [$p, $l] (null; setpath($p; $l) as $r | setpath($p; "fork") as $f | setpath($p[:-1] + [($p[-1] | if type == "number" then . + 1 else . + "'" end)]; "fork") as $g | $r)), .]`, domain: func(v any) bool { return !hasEmptyContainer(v) }},
 		{name: "truncate_stream inverse", src: `[[1 | truncate_stream([[0],1],[[1,0],2],[[1,0]],[[1]])], [[[0],2],[[0]]]]`, domain: func(v any) bool { return v == nil }},
 	}
 	for _, l := range laws {
